@@ -150,6 +150,10 @@ class Driver(object):
     from scales.observable import Observable
     from scales.sink import ClientMessageSinkStack
     arg = 'arg-%s' % name
+    if deadline is not None and deadline < 0:
+      from scales.constants import ChannelState
+      if (sink or self.sink).state != ChannelState.Open:
+        return      # (the pools never hand a request to a transport that does not report Open; only the Open case is of interest here)
     msg = MethodCallMessage(None, 'hi', (arg,), {})
     class CountingStack(ClientMessageSinkStack):
       # observation only: how many times the transport completed this request (a second completion is absorbed by
@@ -405,6 +409,13 @@ def scripts():
   out.append(('mux peer stops answering pings with requests in flight',
               {'transport': 'mux', 'withhold': ['ping2', 'r2', 'r3'],
                'script': [['req', 'r1'], ['wait', 29.0], ['req', 'r2'], ['req', 'r3', 0.5025], ['wait', 8.0, 0.5]]}))
+  # a request that arrives with its deadline already in the past
+  out.append(('thrift, a request whose deadline has already passed, then ordinary requests',
+              {'transport': 'thrift', 'withhold': [],
+               'script': [['req', 'r1'], ['wait', 0.1, 0.05], ['req', 'r2', -0.0525], ['wait', 0.1, 0.05], ['req', 'r3'], ['wait', 0.3, 0.05]]}))
+  out.append(('mux, a request whose deadline has already passed, then ordinary requests',
+              {'transport': 'mux', 'withhold': [],
+               'script': [['req', 'r1'], ['req', 'r2', -0.0525], ['wait', 0.1, 0.05], ['req', 'r3'], ['wait', 0.3, 0.05]]}))
   # a consumer that re-enters the transport from its failure callback
   out.append(('thrift, the consumer issues the next request from inside the failure callback',
               {'transport': 'thrift', 'withhold': [], 'reenter': True,
